@@ -482,3 +482,32 @@ Section Oracle.
     - apply ok_apart_pairs. intros a b Ia Ib. apply model_pair_ok; [exact NC|apply NA; assumption].
   Qed.
 End Oracle.
+
+(* ---------- policy groups: the chain name is a function of the whole identity, and only of it ---------- *)
+
+Theorem group_name_injective : forall H3 i j s t ps qs,
+  has nl s = false -> has nl t = false ->
+  forallb valid_pid ps = true -> forallb valid_pid qs = true ->
+  group_chain H3 i s ps = group_chain H3 j t qs ->
+  (i = j /\ s = t /\ ps = qs) \/ trunc_collision H3 20.
+Proof.
+  intros H3 i j s t ps qs Cs Ct Vp Vq E. apply group_chain_injective in E. destruct E as [Eij [C|C]]; [|right; exact C].
+  subst j. apply group_content_injective in C; try assumption. destruct C. left. auto.
+Qed.
+
+(* naming a sequence of groups one after the other (what one Felix process does): the name given to a group
+   does not depend on the groups named before it *)
+Definition group_id : Type := (bool * bytes * list policy_id)%type.
+Definition name_group (H3 : bytes -> bytes) (g : group_id) : bytes :=
+  match g with (i, s, ps) => group_chain H3 i s ps end.
+Definition name_history (H3 : bytes -> bytes) (h : list group_id) : list bytes := map (name_group H3) h.
+
+Theorem group_name_history_independent : forall H3 h1 h2 g,
+  nth_error (name_history H3 (h1 ++ [g])) (length h1) = Some (name_group H3 g) /\
+  nth_error (name_history H3 (h1 ++ [g])) (length h1) = nth_error (name_history H3 (h2 ++ [g])) (length h2).
+Proof.
+  assert (K : forall H3 h g, nth_error (name_history H3 (h ++ [g])) (length h) = Some (name_group H3 g)).
+  { intros H3 h g. unfold name_history. rewrite map_app. rewrite nth_error_app2 by (rewrite map_length; lia).
+    rewrite map_length, Nat.sub_diag. reflexivity. }
+  intros. split; [apply K|]. rewrite !K. reflexivity.
+Qed.
